@@ -71,7 +71,8 @@ vars == <<field, base, hist>>
 View == <<field, base>>
 
 Origins == {"parsed", "ctor", "builder"}      \* "padded": parsed from text with blanks around it
-Operands == { Plain(4), R(5, 1, 0, 0, 0), R(4, 2, 1, 1, 1), R(1, 3, 0, 0, 0) }   \* (the last: name 1 with version 3 = "1.0-0", EQUAL under Debian ordering to version 1 = "1.0" but another text)
+Operands == { Plain(4), R(5, 1, 0, 0, 0), R(4, 2, 1, 1, 1), R(1, 3, 0, 0, 0), R(5, 0, 0, 0, 3) }   \* (the last but one: see right; the last: THREE profile groups, whose order counts)
+\*    \* (the last: name 1 with version 3 = "1.0-0", EQUAL under Debian ordering to version 1 = "1.0" but another text)
 Op(op, i, j, x, g) == [op |-> op, i |-> i, j |-> j, x |-> x, g |-> g]      \* i entry idx, j relation idx (0-based), x operand(s), g origin
 
 InsertAt(s, i, x) == SubSeq(s, 1, i) \o <<x>> \o SubSeq(s, i + 1, Len(s))
